@@ -23,11 +23,11 @@ NUM_RE = re.compile(r"#([id])(-?)(\d+)e(-?\d+)")
 
 KF = {
     "lone": "F6: a JSON string with an unpaired surrogate escape (e.g. \"\\ud800\") is valid JSON (encoding/json: U+FFFD) but is rejected by cue (literal.Unquote: unmatched surrogate pair)",
-    "bom": "F10: a JSON string containing a raw U+FEFF is rejected by cue (scanner: illegal byte order mark); Value.MarshalJSON emits U+FEFF raw, so cue cannot read back its own output",
-    "exp": "F11: JSON numbers whose exponent (or adjusted exponent) leaves [-100000,100000] silently lose the exponent (1e100001 -> 1) or become NaN (1e2147483648), apd.SetString error ignored in literal.NumInfo.decimal",
-    "nfc": "F13: member names that need quoting in CUE are NFC-normalised by the compiler ({\"e\\u0301\":1} reads back with the name U+00E9); names are not preserved byte for byte",
-    "qq": "F14: a JSON string value that starts with two double quotes is re-quoted by PatchExpr as #\"\"\"...\"# (literal.String.WithOptionalHashes), which reads as a multi-line opener: the valid document is rejected",
-    "dup": "F12: objects with a repeated member name are unified instead of last-wins: {\"a\":1,\"a\":2} is rejected, {\"a\":{\"b\":1},\"a\":{\"c\":2}} reads as {\"a\":{\"b\":1,\"c\":2}}",
+    "bom": "C10-raw-bom: a JSON string containing a raw U+FEFF is rejected by cue (scanner: illegal byte order mark); Value.MarshalJSON emits U+FEFF raw, so cue cannot read back its own output",
+    "exp": "C10-exponent-range: JSON numbers whose exponent (or adjusted exponent) leaves [-100000,100000] silently lose the exponent (1e100001 -> 1) or become NaN (1e2147483648), apd.SetString error ignored in literal.NumInfo.decimal",
+    "nfc": "C10-nfc-names: member names that need quoting in CUE are NFC-normalised by the compiler ({\"e\\u0301\":1} reads back with the name U+00E9); names are not preserved byte for byte",
+    "qq": "C10-leading-quotes: a JSON string value that starts with two double quotes is re-quoted by PatchExpr as #\"\"\"...\"# (literal.String.WithOptionalHashes), which reads as a multi-line opener: the valid document is rejected",
+    "dup": "C10-duplicate-names: objects with a repeated member name are unified instead of last-wins: {\"a\":1,\"a\":2} is rejected, {\"a\":{\"b\":1},\"a\":{\"c\":2}} reads as {\"a\":{\"b\":1,\"c\":2}}",
 }
 
 
@@ -502,9 +502,10 @@ MANIFEST = {
             "by exact agreement on generated documents (json.Extract+BuildExpr vs Impl model; encoding/json vs Spec model), "
             "marshalled values (model and encoding/json vs generator truth), and literal-level cases.",
     "note": "partial: the CUE scanner/parser/evaluator between the JSON text and the value are covered by the correspondence only. "
-            "Known findings F6 (unpaired surrogate escapes rejected), F10 (raw U+FEFF in strings rejected; cue cannot read back "
-            "its own output), F11 (exponents beyond apd's range silently dropped / NaN), F12 (duplicate member names unified), "
-            "F13 (quoted member names NFC-normalised), F14 (string values starting with two quotes rejected). "
+            "Known findings F6 (unpaired surrogate escapes rejected), C10-raw-bom (raw U+FEFF in strings rejected; cue cannot read "
+            "back its own output), C10-exponent-range (exponents beyond apd's range silently dropped / NaN), C10-duplicate-names "
+            "(repeated member names unified), C10-nfc-names (quoted member names NFC-normalised), C10-leading-quotes (strings "
+            "starting with two quotes rejected). "
             "Trusted: Coq kernel, hand-written models (apd and encoding/json string escaping are third-party, modelled), extraction, "
             "OCaml/Go drivers.",
     "technique": "Coq proof (structural induction with explicit fuel; codec inversion) + extracted-model differential check with "
